@@ -432,10 +432,23 @@ fn cli_bytes(c: &TCase) -> (Vec<u8>, bool) {
 }
 
 pub fn eval_cli(c: &TCase) -> CaseOutcome {
+    eval_cli_bin(c, CLI_BIN)
+}
+
+/// the same in the emulator built with cargo's default profile (unoptimised, arithmetic overflow checked)
+pub fn eval_cli_unopt(c: &TCase) -> CaseOutcome {
+    match eval_cli_bin(c, CLI_DEBUG_BIN) {
+        CaseOutcome::Fail { key, what, replay } => CaseOutcome::Fail { key: key.replace("c15|cli|", "c15|cli-unoptimised|"), what: format!("[emulator built with cargo's default profile] {}", what), replay },
+        CaseOutcome::Pass { nontrivial, classes, digest } => CaseOutcome::Pass { nontrivial, classes: classes.into_iter().map(|k| k.replace("c15/cli", "c15/cli-unoptimised")).collect(), digest },
+        o => o,
+    }
+}
+
+fn eval_cli_bin(c: &TCase, bin: &'static str) -> CaseOutcome {
     let (bytes, may_run) = cli_bytes(c);
-    let out = run_cli(&bytes, Stdin::Closed, false, 8 << 20, 30_000);
+    let out = run_bin_limited(bin, &bytes, Stdin::Closed, false, 8 << 20, if bin == CLI_BIN { 30_000 } else { 90_000 }, DEFAULT_LIMITS);
     let lossy = String::from_utf8_lossy(&bytes).to_string();
-    let replay = json!({"kind":"cli-bytes","bytes_hex": bytes.iter().map(|b| format!("{:02x}", b)).collect::<String>(), "text_lossy": lossy});
+    let replay = json!({"kind":"cli-bytes","bytes_hex": bytes.iter().map(|b| format!("{:02x}", b)).collect::<String>(), "text_lossy": lossy, "binary": if bin == CLI_BIN { "optimised" } else { "unoptimised" }});
     match &out.status {
         Status::SpawnError(e) => return CaseOutcome::Inconclusive(e.clone()),
         Status::Timeout => {
@@ -709,6 +722,25 @@ pub fn run(ctx: &Ctx) {
     for k in ["c15/cli-invalid-utf8", "c15/cli-no-newline-at-all", "c15/cli-no-final-newline", "c15/cli-syntax-error"] {
         ctx.require_class(k, 10);
     }
+    // programs that read the keyboard and write the screen (the C18 generator: every service, buffers of capacity 0 / 1 /
+    // 255, at and across the top of memory, lines longer than the buffer, stdin complete / cut / closed): they end
+    // normally in the optimised build and in the one cargo makes by default
+    let nio = ctx.tier.pick(300usize, 5_000usize);
+    run_cases(ctx, "c15-cli-io", nio, crate::c18::case_s, |c| crate::c18::eval_ends_normally(c, CLI_BIN, "c15|cli|io-program-abort"), |c| {
+        let b = crate::c18::build(c);
+        json!({"source": render_program(&b.prog, &crate::progs::Layout::plain()).text, "stdin": String::from_utf8_lossy(&b.stdin)})
+    });
+    if debug_cli_available() {
+        run_cases(ctx, "c15-cli-io-unoptimised", nio, crate::c18::case_s, |c| crate::c18::eval_ends_normally(c, CLI_DEBUG_BIN, "c15|cli-unoptimised|io-program-abort"), |c| {
+            let b = crate::c18::build(c);
+            json!({"source": render_program(&b.prog, &crate::progs::Layout::plain()).text, "stdin": String::from_utf8_lossy(&b.stdin), "binary": "unoptimised"})
+        });
+        let nun = ctx.tier.pick(300usize, 5_000usize);
+        run_cases(ctx, "c15-cli-unoptimised", nun, tcase_s, eval_cli_unopt, |c| json!({"cli_text": String::from_utf8_lossy(&cli_bytes(c).0).chars().take(300).collect::<String>(), "binary": "unoptimised"}));
+        ctx.require_class("c15/cli-unoptimised", 100);
+    } else {
+        ctx.note("the unoptimised build of the emulator is not available (./check builds it): programs are run in the optimised build only");
+    }
     ctx.note(&format!("CLI part finished after {:.1}s", ctx.start.elapsed().as_secs_f64()));
     run_families(ctx);
     ctx.note(&format!("families finished after {:.1}s", ctx.start.elapsed().as_secs_f64()));
@@ -744,7 +776,11 @@ pub fn replay(v: &Value) -> Result<String, String> {
         _ => {
             let hex = v["bytes_hex"].as_str().ok_or("no bytes")?;
             let bytes: Vec<u8> = (0..hex.len() / 2).map(|i| u8::from_str_radix(&hex[2 * i..2 * i + 2], 16).unwrap_or(0)).collect();
-            let out = run_cli(&bytes, Stdin::Closed, false, 8 << 20, 30_000);
+            let bin = if v.get("binary").and_then(|x| x.as_str()) == Some("unoptimised") { CLI_DEBUG_BIN } else { CLI_BIN };
+            if !std::path::Path::new(bin).exists() {
+                return Err(format!("{} is not built (run ./check setup)", bin));
+            }
+            let out = run_bin_limited(bin, &bytes, Stdin::Closed, false, 8 << 20, 90_000, DEFAULT_LIMITS);
             let rep = format!("file ({} bytes): {:?}\nstatus {:?}\nstdout: {}\nstderr: {}", bytes.len(), String::from_utf8_lossy(&bytes), out.status, out.out_str().chars().take(400).collect::<String>(), out.err_str());
             let utf8 = std::str::from_utf8(&bytes).is_ok();
             let ok = match out.status {
